@@ -120,6 +120,8 @@ def run(run, suspicious):
     minmax.presorted_layer(run, rt, quick)
     import c10_counts
     c10_counts.run(run, rt)
+    import c10_sorts
+    c10_sorts.run(run, rt)
 
 
 def _ident(p):
